@@ -90,6 +90,23 @@ impl<const N: usize> AsRef<OwnN<N>> for OwnN<N> { fn as_ref(&self) -> &OwnN<N> {
 impl<const N: usize> AsMut<OwnN<N>> for OwnN<N> { fn as_mut(&mut self) -> &mut OwnN<N> { self.tw_mut() } }
 impl<const N: usize> AsRef<[A]> for OwnN<N> { fn as_ref(&self) -> &[A] { &self.tw().v[..] } }
 impl<const N: usize> AsMut<[A]> for OwnN<N> { fn as_mut(&mut self) -> &mut [A] { &mut self.tw_mut().v[..] } }
+/// A type whose argument mentions a const parameter only as an array length (`OwnG<[u8; N]>`): the parameter occurs in
+/// expression position. Its `AsRef<[A]>` holds for one length only, so it cannot be answered without the forwarding
+/// impl's where-clause.
+#[derive(Debug, Clone, PartialEq)]
+pub struct OwnG<X> { pub id: u32, pub v: Vec<A>, pub x: core::marker::PhantomData<X>, pub twin: Option<Box<OwnG<X>>> }
+impl<X> OwnG<X> {
+    pub fn new(id: u32) -> Self {
+        let mk = |b: u32| vec![A(b + 1), A(b + 2)];
+        OwnG { id, v: mk(id), x: core::marker::PhantomData, twin: Some(Box::new(OwnG { id: id + 50, v: mk(id), x: core::marker::PhantomData, twin: None })) }
+    }
+    pub fn tw(&self) -> &OwnG<X> { match &self.twin { Some(t) => t, None => self } }
+    pub fn tw_mut(&mut self) -> &mut OwnG<X> { if self.twin.is_some() { self.twin.as_mut().unwrap() } else { self } }
+}
+impl<X> AsRef<OwnG<X>> for OwnG<X> { fn as_ref(&self) -> &OwnG<X> { self.tw() } }
+impl<X> AsMut<OwnG<X>> for OwnG<X> { fn as_mut(&mut self) -> &mut OwnG<X> { self.tw_mut() } }
+impl AsRef<[A]> for OwnG<[u8; 2]> { fn as_ref(&self) -> &[A] { &self.tw().v[..] } }
+impl AsMut<[A]> for OwnG<[u8; 2]> { fn as_mut(&mut self) -> &mut [A] { &mut self.tw_mut().v[..] } }
 pub type OwnA = Own<A>;
 pub type OwnB = Own<B>;
 pub type VecA = Vec<A>;
@@ -138,7 +155,7 @@ struct Ty {
     foreign: &'static [(&'static str, &'static str)],
 }
 
-const TYS: [Ty; 14] = [
+const TYS: [Ty; 15] = [
     Ty { decl: "Own<A>", inst: "Own<A>", caps: 15, gen: 0, catch_all: false, elem: "A", selfs: &[("Own<A>", true), ("OwnA", true), ("crate::Own<A>", true)], foreign: &[("[A]", "[A]"), ("Vec<A>", "Vec<A>")] },
     Ty { decl: "Own<B>", inst: "Own<B>", caps: 15, gen: 0, catch_all: false, elem: "B", selfs: &[("Own<B>", true), ("OwnB", true), ("crate::Own<B>", true)], foreign: &[("[B]", "[B]"), ("Vec<B>", "Vec<B>")] },
     Ty { decl: "Vec<A>", inst: "Vec<A>", caps: 15, gen: 0, catch_all: false, elem: "A", selfs: &[("Vec<A>", true), ("VecA", true), ("std::vec::Vec<A>", true)], foreign: &[("[A]", "[A]")] },
@@ -159,6 +176,8 @@ const TYS: [Ty; 14] = [
     Ty { decl: "OwnN<N>", inst: "OwnN<2>", caps: 8, gen: 16, catch_all: false, elem: "", selfs: &[("OwnN<N>", true), ("OwnN<N>", true), ("crate::OwnN<N>", false), ("OwnN<{ N }>", false)], foreign: &[("[A]", "[A]")] },
     // 13: deref_mut.md: forwarding "for when the field itself is a reference type like `&mut` and `Box`"
     Ty { decl: "&'a mut Own<A>", inst: "&'static mut Own<A>", caps: 1, gen: 8, catch_all: false, elem: "A", selfs: &[], foreign: &[] },
+    // 14: the const parameter occurs only as an array length inside a type argument (expression position)
+    Ty { decl: "OwnG<[u8; N]>", inst: "OwnG<[u8; 2]>", caps: 8, gen: 16, catch_all: false, elem: "", selfs: &[("OwnG<[u8; N]>", true), ("OwnG<[u8; N]>", true), ("crate::OwnG<[u8; N]>", false)], foreign: &[("[A]", "[A]")] },
 ];
 const TY_MUT_REF: usize = 13;
 const TY_ASSOC_SHORTHAND: usize = 9;
@@ -171,6 +190,7 @@ fn value_of(ty: usize, k: usize) -> String {
         0 | 1 | 3 | 8 | 9 | 10 => format!("Own::new({b}, {elems})"),
         11 => format!("OwnL::new({b})"),
         12 => format!("OwnN::new({b})"),
+        14 => format!("OwnG::new({b})"),
         13 => format!("lko_mut({b})"),
         2 => elems,
         4 => format!("Box::new(Own::new({b}, {elems}))"),
@@ -182,7 +202,7 @@ fn value_of(ty: usize, k: usize) -> String {
 /// (statement writing through `r: &mut FieldTy`, condition on the field `s.F` that proves the write landed there)
 fn write_probe(ty: usize, f: &str) -> (String, String) {
     match ty {
-        0 | 1 | 3 | 4 | 8 | 9 | 10 | 11 | 12 => ("r.id = 4242;".into(), format!("s.{f}.id == 4242")),
+        0 | 1 | 3 | 4 | 8 | 9 | 10 | 11 | 12 | 14 => ("r.id = 4242;".into(), format!("s.{f}.id == 4242")),
         13 => ("*r = lko_mut(4242);".into(), format!("s.{f}.id == 4242")),
         2 => ("r.push(A(4242));".into(), format!("s.{f}.last() == Some(&A(4242))")),
         5 => ("*r = 4242;".into(), format!("s.{f} == 4242")),
@@ -383,7 +403,7 @@ fn gen_model(d: &mut Dice) -> Model {
         if k > 0 && d.chance(65) {
             tys.push(tys[k - 1]);
         } else {
-            tys.push(d.weighted(&[8, 3, 6, 4, 3, 1, 1, 2, 2, 2, 1, 2, 2, 1]));
+            tys.push(d.weighted(&[8, 3, 6, 4, 3, 1, 1, 2, 2, 2, 1, 2, 2, 1, 2]));
         }
     }
     let names: Vec<String> = (0..nf).map(|k| if named { NAMES[k].to_string() } else { k.to_string() }).collect();
@@ -792,9 +812,10 @@ fn render(m: &Model) -> GenCase {
                             8 => labels.push("as_list_on_bare_type_param_field".into()),
                             9 | 10 => labels.push("as_list_on_assoc_type_field".into()),
                             11 | 12 => labels.push("as_list_on_lifetime_or_const_generic_field".into()),
+                            14 => labels.push("as_list_on_field_with_const_as_array_length".into()),
                             _ => {}
                         }
-                        if matches!(m.tys[k], 11 | 12) && x.1 == t && !x.2 {
+                        if matches!(m.tys[k], 11 | 12 | 14) && x.1 == t && !x.2 {
                             labels.push("as_list_lifetime_or_const_generic_other_spelling".into());
                         }
                         if x.1 == t && x.2 && x.0 != TYS[m.tys[k]].decl {
@@ -875,6 +896,7 @@ fn render(m: &Model) -> GenCase {
             9 | 10 => labels.push("selected_assoc_type_field".into()),
             11 => labels.push("selected_lifetime_generic_field".into()),
             12 => labels.push("selected_const_generic_field".into()),
+            14 => labels.push("selected_field_with_const_as_array_length".into()),
             13 => labels.push("selected_mut_ref_field".into()),
             _ => {}
         }
@@ -944,7 +966,7 @@ pub fn prop() -> DiceProp {
         build,
         fixed: no_fixed,
         classify,
-        rule: "tuple / named struct with 1..4 fields (65 % of the neighbours repeat the previous field's type; types `Own<A>`, `Own<B>`, `Own<T>`, `Vec<A>`, `Box<Own<A>>`, `&'static Own<A>`, a bare parameter `V`, projections `Q::A` / `<Q as Tr>::A`, `OwnL<'a>`, `OwnN<N>`, `&'a mut Own<A>`, fillers; the struct's lifetime / type / const parameters as the fields need them, optionally with inline bounds or a where-clause) deriving a subset of Deref(+DerefMut), Index(+IndexMut), IntoIterator, AsRef, AsMut, each with its own selected field expressed by `#[attr]` on it or `#[attr(ignore)]` on the others (AsRef/AsMut: marked fields, skip style), `forward` on field or struct, type lists containing the field's own type verbatim / through an alias / through another path and foreign types, owned/ref/ref_mut; oracle: (address, size) of what the derived impl returns == the selected field's own storage (no forward; listed type == field type) resp. == what `<FieldTy as Trait>::method(&s.field)` returns (forward, index, listed foreign type), element addresses/values and order for the three iteration forms, writes through the mutable forms visible in the field; user impls that collide (E0119) with an impl the derive must not generate (AsRef/AsMut of un-indicated / skipped fields, owned IntoIterator under a field-level `ref, ref_mut`); `Own`'s own impls answer from a second allocation so the two expectations never coincide; non-trivial = two fields of equal type, or forward, or a type list; distinct by program text".into(),
+        rule: "tuple / named struct with 1..4 fields (65 % of the neighbours repeat the previous field's type; types `Own<A>`, `Own<B>`, `Own<T>`, `Vec<A>`, `Box<Own<A>>`, `&'static Own<A>`, a bare parameter `V`, projections `Q::A` / `<Q as Tr>::A`, `OwnL<'a>`, `OwnN<N>`, `OwnG<[u8; N]>` (const parameter only as an array length), `&'a mut Own<A>`, fillers; the struct's lifetime / type / const parameters as the fields need them, optionally with inline bounds or a where-clause) deriving a subset of Deref(+DerefMut), Index(+IndexMut), IntoIterator, AsRef, AsMut, each with its own selected field expressed by `#[attr]` on it or `#[attr(ignore)]` on the others (AsRef/AsMut: marked fields, skip style), `forward` on field or struct, type lists containing the field's own type verbatim / through an alias / through another path and foreign types, owned/ref/ref_mut; oracle: (address, size) of what the derived impl returns == the selected field's own storage (no forward; listed type == field type) resp. == what `<FieldTy as Trait>::method(&s.field)` returns (forward, index, listed foreign type), element addresses/values and order for the three iteration forms, writes through the mutable forms visible in the field; user impls that collide (E0119) with an impl the derive must not generate (AsRef/AsMut of un-indicated / skipped fields, owned IntoIterator under a field-level `ref, ref_mut`); `Own`'s own impls answer from a second allocation so the two expectations never coincide; non-trivial = two fields of equal type, or forward, or a type list; distinct by program text".into(),
         assumptions: vec![
             "IntoIterator forms that are not listed in the attribute but present in the expansion (e.g. `owned` next to a lone `ref`) are checked too, their existence is not asserted; the absence of `owned` is asserted only for a field-level `ref, ref_mut` (tests/into_iterator.rs `Numbers3`)".into(),
             "absence probes for AsRef/AsMut are emitted only where no generated impl can unify with the probe (no `forward`, no type parameter in a selected field's type)".into(),
